@@ -16,6 +16,7 @@ import (
 
 	"github.com/wundergraph/graphql-go-tools/execution/engine"
 	"github.com/wundergraph/graphql-go-tools/execution/graphql"
+	"github.com/wundergraph/graphql-go-tools/v2/pkg/astnormalization"
 	"github.com/wundergraph/graphql-go-tools/v2/pkg/astparser"
 	"github.com/wundergraph/graphql-go-tools/v2/pkg/engine/datasource/graphql_datasource"
 	"github.com/wundergraph/graphql-go-tools/v2/pkg/engine/plan"
@@ -112,9 +113,9 @@ type Lab struct {
 	id      string
 	cancel  context.CancelFunc
 
-	mu   sync.Mutex
-	run  *runState
-	seqn int
+	mu    sync.Mutex // serialises Run
+	logMu sync.Mutex // guards run / the request log
+	run   *runState
 }
 
 type runState struct {
@@ -286,8 +287,8 @@ func (l *Lab) Run(operation string, variables []byte, opts *RunOptions) *Result 
 	l.mu.Lock()
 	defer l.mu.Unlock()
 	rs := &runState{hook: opts.BeforeRespond}
-	l.run = rs
-	defer func() { l.run = nil }()
+	l.seqLock(func() { l.run = rs })
+	defer l.seqLock(func() { l.run = nil })
 
 	parent := opts.Context
 	if parent == nil {
@@ -329,11 +330,9 @@ func (l *Lab) Run(operation string, variables []byte, opts *RunOptions) *Result 
 	return res
 }
 
-var seqMu sync.Mutex
-
 func (l *Lab) seqLock(f func()) {
-	seqMu.Lock()
-	defer seqMu.Unlock()
+	l.logMu.Lock()
+	defer l.logMu.Unlock()
 	f()
 }
 
@@ -452,6 +451,15 @@ func (l *Lab) answer(req *Request) {
 // Validate checks an operation against the supergraph with the repo's own validator.
 func (l *Lab) Validate(operation string) error {
 	req := &graphql.Request{Query: operation}
+	// same order as ExecutionEngine.Execute: normalise (fragments inlined), then validate
+	nres, err := req.Normalize(l.Schema, astnormalization.WithRemoveFragmentDefinitions(),
+		astnormalization.WithRemoveUnusedVariables(), astnormalization.WithInlineFragmentSpreads())
+	if err != nil {
+		return err
+	}
+	if !nres.Successful {
+		return nres.Errors
+	}
 	res, err := req.ValidateForSchema(l.Schema)
 	if err != nil {
 		return err
